@@ -35,7 +35,7 @@ LEVEL = "model_checking"
 AREA = "client"
 
 QUICK_MODELS = ["MCQ_jar", "MCQ_redir", "MCQ_loop"]
-THOROUGH_MODELS = ["MCT_jar", "MCT_jar2", "MCT_redir", "MCT_loop", "MCT_mixed"]
+THOROUGH_MODELS = ["MCT_jar", "MCT_jar2", "MCT_jar4", "MCT_redir", "MCT_loop", "MCT_mixed"]
 # hand-broken variants of the implementation shape and the invariant TLC must report for each
 BROKEN = {
     "MCV_suffix": "AllRequestsOK",      # evil-example.com receives the cookies of example.com
@@ -46,8 +46,8 @@ BROKEN = {
     "MCV_extsuffix": "HostOK",          # evil-example.com passes as a sub-domain of example.com
     "MCV_noloop": "HopsBounded",        # no loop detection: following does not terminate
     "MCV_keepdeleted": "JarAgrees",     # Max-Age=0 does not delete
-    "MCV_orig_dot": "AllRequestsOK",    # the pinned tree: Domain=.example.com is stored with its dot and sent to nobody
-    "MCV_orig_body": "MethodBodyOK",    # the pinned tree: a 307/308 re-sends only what the application left unread
+    "MCV_orig_dot": "AllRequestsOK",    # the tree before c8a85da: Domain=.example.com is stored with its dot and sent to nobody
+    "MCV_orig_body": "MethodBodyOK",    # the tree before e0d8c2e: a 307/308 re-sends only what the application left unread
 }
 
 
@@ -134,14 +134,18 @@ def _self_test(ctx: Ctx):
     end = [ln for ln in t6 if ln["op"] == "end"][0]
     end["e"] = dict(end["e"], hist=end["e"]["hist"][1:], hlens=end["e"]["hlens"][1:])
     want.append((t6, "HistoryChain"))
-    lines = cl.number([w[0] for w in want], ["selftest"] * len(want))
+    # judge every corrupted recording together with the recording it was made from: the expectation is only asked where the
+    # unmodified recording is accepted (on a tree that breaks the contract the main run reports that, not the self-test)
+    bases = [per[0], per[1], per[1], per[3], per[3], per[4], per[6]]
+    lines = cl.number([w[0] for w in want] + bases, ["selftest"] * (len(want) + len(bases)))
     got = collections.defaultdict(set)
     for rj in ctx.judge(AREA, "ClientTrace", lines):
         got[rj["t"]].add(rj["clause"])
-    missing = [(t, w[1], sorted(got[t])) for t, w in enumerate(want) if w[1] not in got[t]]
+    asked = [t for t in range(len(want)) if not got[len(want) + t]]
+    missing = [(t, want[t][1], sorted(got[t])) for t in asked if want[t][1] not in got[t]]
     if missing:
         raise tlc.MachineryError(f"judge self-test: corrupted recordings not rejected as expected: {missing}")
-    ctx.notes["judge_self_test"] = {"corrupted_traces": len(want), "rejected": len(want)}
+    ctx.notes["judge_self_test"] = {"corrupted_traces": len(want), "asked": len(asked), "rejected": len(asked)}
 
 
 def run(ctx: Ctx):
@@ -152,7 +156,7 @@ def run(ctx: Ctx):
                 "random histories over 7 hosts x 8 paths x 3 names with random scripts (<= 3 Set-Cookie per response, all Location forms); non-trivial = distinct history "
                 "in which a request carried a cookie, a redirect was followed or Client.open raised")
     ctx.assumptions += [
-        "contract = werkzeug's documentation (Client / set_cookie / Cookie docstrings, CHANGES 0.15.0 #1402, 0.15.5 #1491, 2.3.0) plus RFC 6265 5.1.3 / 5.1.4 / 5.2.3 / 5.3 for "
+        "contract = werkzeug's documentation (Client / set_cookie / Cookie docstrings, CHANGES 0.15.0 #1402, 0.15.2 #1491, 2.3.0) plus RFC 6265 5.1.3 / 5.1.4 / 5.2.3 / 5.3 for "
         "what 'domain and path matching' means; Secure / HttpOnly / SameSite and positive lifetimes are documented as ignored by the test client",
         "undocumented behaviour is drift, not a verdict: Max-Age<0 / past Expires other than the epoch, a Domain attribute that does not cover the responding host, loop "
         "detection keyed by the (Location text, status) pair, redirects from a sub-domain back to its parent, path-relative / query-only / scheme-less Location values",
@@ -162,7 +166,7 @@ def run(ctx: Ctx):
     models = QUICK_MODELS + ([] if q else THOROUGH_MODELS)
     with cf.ThreadPoolExecutor(max_workers=6 if q else 4) as ex:
         model_f = [ex.submit(ctx.model_check, AREA, "MCClient", cfg, timeout=1200 if q else 7200, workers=max(2, ctx.workers // 2)) for cfg in models]
-        lts_f = [ex.submit(_lts_histories, ctx, cfg, 700 if q else 10**9) for cfg in (["MCX_q1", "MCX_q2"] if q else ["MCX_q1", "MCX_q2", "MCX_t"])]
+        lts_f = [ex.submit(_lts_histories, ctx, cfg, 700 if q else 40000) for cfg in (["MCX_q1", "MCX_q2"] if q else ["MCX_q1", "MCX_q2", "MCX_t"])]
         self_f = ex.submit(_self_test, ctx)
         broken_f = {cfg: ex.submit(tlc.run_tlc, AREA, "MCClient", cfg, workers=1, tmp=ctx.tmp, allow_violation=True, timeout=600) for cfg in BROKEN}
         for f in model_f:
@@ -178,7 +182,7 @@ def run(ctx: Ctx):
     ctx.exhaustive = True  # the bounded models were enumerated completely
 
     jobs = [("model", h) for h in model_h] + [("directed", h) for h in cl.directed_histories()]
-    jobs += [("rand", ctx.seed * 1000003 + i) for i in range(500 if q else 40000)]
+    jobs += [("rand", ctx.seed * 1000003 + i) for i in range(500 if q else 20000)]
     results = pmap(_dispatch, jobs, workers=ctx.workers, chunksize=64)
     hists = [r[0] for r in results]
     ctx.notes["phase_s"]["run"] = round(ctx.elapsed(), 1)
